@@ -282,7 +282,7 @@ impl Part for C13Part {
     fn runs(&self, tier: Tier) -> u64 {
         match tier {
             Tier::Quick => 30_000,
-            Tier::Thorough => 1_500_000,
+            Tier::Thorough => 800_000,
         }
     }
     fn block(&self, _t: Tier) -> u64 {
@@ -720,7 +720,7 @@ impl Part for C13Client {
     fn runs(&self, tier: Tier) -> u64 {
         match tier {
             Tier::Quick => 8_000,
-            Tier::Thorough => 400_000,
+            Tier::Thorough => 200_000,
         }
     }
     fn block(&self, _t: Tier) -> u64 {
